@@ -10,6 +10,7 @@ import Mav.Spec.Close
 import Mav.Spec.Lifecycle
 import Mav.Spec.AutoMsgs
 import Mav.Spec.Gen18
+import Mav.Spec.PublishedCrc
 /- mavdrv: one operation per line on stdin, model (and spec) answer per line on stdout. -/
 open Mav Drv
 
@@ -522,6 +523,15 @@ def step (ds : DState) (line : String) : DState × String :=
                                   ((Spec.Msg.wireOrder d).map (fun f => (f.idx, f.ext)))))
           Spec.Gen18.valueOf fs
         model ++ "\t" ++ spec)
+  | ["pubcrc", id] =>
+    (ds, match id.toNat? with
+      | some i =>
+        let m := match ds.get "common" with
+          | some l => (match l.find? (·.id == UInt32.ofNat i) with | some d => toString d.rw.crcExtra.toNat | none => "none")
+          | none => "none"
+        let sp := match Spec.publishedCrcExtra.lookup i with | some c => toString c | none => "-"
+        m ++ "\t" ++ sp
+      | none => "bad-op")
   | ["lifecheck", kind, script] =>
     (ds, if kind == "tcps" || kind == "udps" then
         match (script.splitOn ",").mapM decPeer with
